@@ -78,6 +78,47 @@ func (e *Engine) evalSpecFn(st *State, fn *ssa.Function, args []Val, extraPC []*
 	return r
 }
 
+// evalSpecFnVal is evalSpecFn for results of any shape: one ite chain per leaf.
+func (e *Engine) evalSpecFnVal(st *State, fn *ssa.Function, args []Val) Val {
+	sub := &State{heap: st.heap.clone(), cells: map[cellKey]Val{}, pc: append([]*Term{}, st.pc...),
+		eqs: map[*Term]*Term{}, normMemo: map[*Term]*Term{}, iters: map[int64]*iterState{}}
+	for k, v := range st.eqs {
+		sub.eqs[k] = v
+	}
+	for k, v := range st.cells {
+		sub.cells[k] = v
+	}
+	base := len(sub.pc)
+	sub.frames = []*Frame{e.newFrame(fn, args)}
+	savedMode, savedOut, savedRet, savedPaths := e.Mode, e.specOut, e.onReturn, e.Paths
+	e.Mode = ModeSpec
+	e.specOut = nil
+	e.onReturn = func(s *State, fr *Frame, results []Val) {
+		var flat Val
+		for _, r := range results {
+			flat = append(flat, r...)
+		}
+		e.specOut = append(e.specOut, specRet{pc: append([]*Term{}, s.pc[base:]...), val: flat})
+	}
+	func() {
+		defer func() { e.Mode, e.onReturn, e.Paths = savedMode, savedRet, savedPaths }()
+		e.explore(sub)
+	}()
+	outs := e.specOut
+	e.specOut = savedOut
+	if len(outs) == 0 {
+		engineErr("specification function %s has no feasible path", fn)
+	}
+	r := append(Val{}, outs[len(outs)-1].val...)
+	for i := len(outs) - 2; i >= 0; i-- {
+		c := And(outs[i].pc...)
+		for k := range r {
+			r[k] = Ite(c, outs[i].val[k], r[k])
+		}
+	}
+	return r
+}
+
 func (e *Engine) genFn(fc *FuncContract, name string) *ssa.Function {
 	rel, _ := relDir(e.W.Repo, fc.PkgDir)
 	sp := e.W.Pkgs[rel]
@@ -319,6 +360,9 @@ func (e *Engine) loopsOf(fn *ssa.Function) *loopInfo {
 	}
 	if fc != nil {
 		for _, lc := range fc.Loops {
+			if lc.Missing {
+				continue
+			}
 			found := false
 			for _, ld := range li.byHeader {
 				if ld.contract == lc {
